@@ -42,7 +42,10 @@ def pool():
     global _pool
     if _pool is None:
         ctx = mp.get_context("fork")
-        _pool = ctx.Pool(NPROC, initializer=_init_worker)
+        # one task per worker process: every case starts in a fresh fork of this (never-executing) parent, so that state an
+        # implementation might keep at class or module level cannot leak from one case into another - a failure then always
+        # reproduces in the fresh-process judge
+        _pool = ctx.Pool(NPROC, initializer=_init_worker, maxtasksperchild=1)
     return _pool
 
 
@@ -201,6 +204,8 @@ def run_check(mod, tier, seed, replay=None, max_judged=6):
     cap_s = float(os.environ.get("VERIF_CAP_S", desc.get("cap_s", 0)) or 0)
     capped = False
     all_cases = list(mod.cases(tier, seed))
+    harness.load()          # import only (nothing is executed in this process); the forked workers inherit the modules
+    from . import scen as _scen  # noqa - pre-import the models too
     done = 0
     for case, r in pmap(modname, all_cases, desc.get("chunksize", 1)):
         st.add(case, r)
